@@ -205,6 +205,19 @@ MechUp(a2, a4) ==
 MechUpPanics(a2, a4) == a4.p /\ NonConfed(a4.segs) # <<>> /\ Count(a2) + ConfedLen(a2) >= Count(NonConfed(a4.segs))
                         /\ MechKeep(a2, Count(a2) + ConfedLen(a2) - Count(NonConfed(a4.segs))) = <<>>
 
+(* The repaired mechanism proposed in findings_proposed/C14-*.md: count as the RFC does, keep with
+   Lead (confederation segments never consume the count and are always kept while adjacent), and
+   do not index an empty kept list.  Same gluing of sequences at the junction as the code. *)
+RECURSIVE MechMergeF(_, _)
+MechMergeF(new, segs) == IF segs = <<>> THEN new
+                         ELSE IF new = <<>> THEN MechMergeF(<<Head(segs)>>, Tail(segs))
+                         ELSE MechMergeF(MechMerge1(new, Head(segs)), Tail(segs))
+MechUpFixed(a2, a4) ==
+  IF ~a4.p THEN a2
+  ELSE LET n == NonConfed(a4.segs) IN
+       IF Count(a2) < Count(n) THEN a2
+       ELSE MechMergeF(Lead(a2, Count(a2) - Count(n), TRUE), n)
+
 (* UpdatePathAggregator4ByteAs: AS4_AGGREGATOR's AS number replaces AGGREGATOR's whenever both are
    present (the AS_TRANS test of the RFC is not made; the address is left as it is). *)
 MechUpAgg(g2, g4) == IF g2.p /\ g4.p THEN [g2 EXCEPT !.as = g4.as] ELSE g2
@@ -255,5 +268,6 @@ D_MechOK(a2, a4)      == ~(KF_A(a2, a4) \/ KF_B(a2, a4)) =>
                            (SegsOK(MechUp(a2, a4)) /\ SamePath(MechUp(a2, a4), RfcUp(a2, a4)))
 D_KF_A_Tight(a2, a4)  == KF_A(a2, a4) => (~SamePath(MechUp(a2, a4), RfcUp(a2, a4)) /\ SegsOK(MechUp(a2, a4)))
 D_KF_B_Tight(a2, a4)  == KF_B(a2, a4) => ~SegsOK(MechUp(a2, a4))
+D_MechFixedOK(a2, a4) == SegsOK(MechUpFixed(a2, a4)) /\ SamePath(MechUpFixed(a2, a4), RfcUp(a2, a4))
 D_KF_Disjoint(a2, a4) == ~(KF_A(a2, a4) /\ KF_B(a2, a4))
 =============================================================================
